@@ -5,7 +5,7 @@ cd "$(dirname "$(readlink -f "$0")")/.."
 for d in seeded/*/; do
   n=$(basename "$d")
   [ -n "${1:-}" ] && [[ "$n" != *$1* ]] && continue
-  prop=$(python3 -c "import json;print(json.load(open('$d/meta.json'))['property'])")
+  prop=$(python3 -c "import json;m=json.load(open('$d/meta.json'));print(m.get('check') or m['property'])")
   patch="$d/patch.diff"; [ -f "$d/patch.rebased.diff" ] && patch="$d/patch.rebased.diff"
   out=$(timeout 3000 tools/seedtest.sh "$(readlink -f $patch)" "$prop" 2>&1)
   sup=$(python3 -c "import json;print('superseded' if json.load(open('$d/meta.json')).get('superseded') else '')")
